@@ -966,11 +966,29 @@ func (e *Engine) assert(c *Term, msg string) {
 	case Sat:
 		// the sliced query has no values for variables outside the slice:
 		// re-decide on the full path condition for the counterexample
-		if r2 := e.checkFull(nc); r2 != Sat {
+		r2 := e.checkFull(nc)
+		if r2 == Unknown {
+			// retry with the long timeout
+			e.sv.send(fmt.Sprintf("(set-option :timeout %d)", e.cfg.AssertTimeout.Milliseconds()))
+			r2 = e.checkFull(nc)
+			e.sv.send(fmt.Sprintf("(set-option :timeout %d)", e.cfg.FeasTimeoutMs))
+		}
+		if r2 != Sat {
 			x.mu.Lock()
 			x.Inconclusive++
 			x.Notes["assert: sliced query sat but full query "+r2.String()]++
 			x.mu.Unlock()
+			if r2 == Unknown && e.check(nc) == Sat {
+				// The solver does not finish the whole path condition. Keep the
+				// model of the sliced query as a candidate: variables outside the
+				// slice get default values, and the native replay decides whether
+				// it is a counterexample (a candidate that does not reproduce is
+				// only counted as not reproduced).
+				if m, err := e.model(); err == nil {
+					v := e.buildViolation("assert", msg, m)
+					e.report(v)
+				}
+			}
 			e.addPC(c)
 			return
 		}
